@@ -81,6 +81,7 @@ type End struct {
 	// fault plan
 	ReadFailAfter int // >=0: Read fails once this many envelopes were delivered
 	WriteFailAt   int // >=0: the k-th Write (0-based) and all later ones fail
+	FailNextWrites     int  // the next n Writes fail (then the plan continues)
 	WriteFailsWithRead bool // once a Read has failed by plan, Writes fail too
 	ReadFailed    bool
 	// hooks run inline in the calling thread
@@ -108,6 +109,14 @@ func (p *Pipe) tap(dir string, rpc *Rpc) {
 	if p.Tap != nil {
 		p.Tap.Events = append(p.Tap.Events, TapEvent{Seq: len(p.Tap.Events), Wire: p.Opts.Name, Dir: dir, Rpc: proto.Clone(rpc).(*Rpc)})
 	}
+}
+
+// Queued is the number of envelopes sitting in the queue of a direction.
+func (p *Pipe) Queued(dir string) int {
+	if dir == "a2b" {
+		return len(p.A.out)
+	}
+	return len(p.B.out)
 }
 
 // Break makes this end's pending and future Reads and Writes fail (the
@@ -159,6 +168,10 @@ func (e *End) Write(ctx context.Context, rpc *Rpc) error {
 		return ErrWriteFault
 	}
 	if e.WriteFailsWithRead && e.ReadFailed {
+		return ErrWriteFault
+	}
+	if e.FailNextWrites > 0 {
+		e.FailNextWrites--
 		return ErrWriteFault
 	}
 	if e.down {
